@@ -33,17 +33,33 @@ def _classes():
         return _state['ram'], _state['file']
     from cherrypy.lib import sessions
 
+    def _maybe_fail_release(self):
+        # a transient failure of the lock layer: the FIRST release attempt of this request raises
+        # before anything is released
+        _state['release_attempts'] = _state.get('release_attempts', 0) + 1
+        if self._data.get('boomrel') and not getattr(self, '_rel_failed', False):
+            self._rel_failed = True
+            raise IOError('lock layer failure (planned)')
+
     class FaultyRam(sessions.RamSession):
         def _save(self, expiration_time):
             if self._data.get('boom'):
                 raise IOError('storage failure (planned)')
             return sessions.RamSession._save(self, expiration_time)
 
+        def release_lock(self):
+            _maybe_fail_release(self)
+            return sessions.RamSession.release_lock(self)
+
     class FaultyFile(sessions.FileSession):
         def _save(self, expiration_time):
             if self._data.get('boom'):
                 raise IOError('storage failure (planned)')
             return sessions.FileSession._save(self, expiration_time)
+
+        def release_lock(self, path=None):
+            _maybe_fail_release(self)
+            return sessions.FileSession.release_lock(self, path)
 
     _state['ram'], _state['file'] = FaultyRam, FaultyFile
     return FaultyRam, FaultyFile
@@ -171,6 +187,8 @@ def build_app(env, plan, journal, holder):
                     sess['n'] = sess.get('n', 0) + 1
                     if plan['saveFails']:
                         sess['boom'] = 1
+                    if plan.get('relFail'):
+                        sess['boomrel'] = 1
                 elif a == 'acquire':
                     sess.acquire_lock()
                 elif a == 'release':
@@ -287,6 +305,7 @@ def run_plan(plan):
 
 
 def _planned_request(env, plan, app, observe, cookie, journal, holder):
+    _state['release_attempts'] = 0
     if True:
         it, got = call(app, _environ('/planned', cookie))
         observe('B')
@@ -313,7 +332,7 @@ def _planned_request(env, plan, app, observe, cookie, journal, holder):
         sess = holder.get('sess')
         return {'journal': journal, 'leaked': env.leaked(), 'status': got.get('status', '???')[:3],
                 'locked_end': bool(getattr(sess, 'locked', False)), 'gen_error': gen_error,
-                'close_error': close_error}
+                'close_error': close_error, 'release_attempts': _state.get('release_attempts', 0)}
 
 
 def plan_line(p):
